@@ -64,7 +64,36 @@ func genC13(ctx *fw.Ctx) []fw.Case {
 			cases = append(cases, fw.Case{ID: fmt.Sprintf("%s/constructed/%d", sc, i), Run: func(r *fw.Rec) { c13Constructed(r, sc, i, rounds) }})
 		}
 	}
+	// literal: a never-printed module whose functions, globals, aliases and constant
+	// expressions are built as struct literals (the documented alternative to the
+	// New* constructors: Typ is nil until the first Type() call); whole-module printers only
+	for i := 0; i < ctx.Pick(2, 8); i++ {
+		i := i
+		cases = append(cases, fw.Case{ID: fmt.Sprintf("literal/constructed/%d", i), Run: func(r *fw.Rec) {
+			c13Rounds(r, "literal", fmt.Sprintf("literal/%d", i), "c13BuildLiteral()", c13BuildLiteral, rounds)
+		}})
+	}
 	return cases
+}
+
+// c13BuildLiteral builds a module from struct literals: the Typ caches of the
+// function, the globals, the alias and the constant expression are empty.
+func c13BuildLiteral() *ir.Module {
+	m := ir.NewModule()
+	f := &ir.Func{Sig: types.NewFunc(types.Void)}
+	f.SetName("f")
+	m.Funcs = append(m.Funcs, f)
+	st := types.NewStruct(types.NewPointer(f.Sig), types.I32)
+	sum := &constant.ExprAdd{X: constant.NewInt(types.I32, 1), Y: constant.NewInt(types.I32, 2)}
+	g := &ir.Global{ContentType: st, Init: &constant.Struct{Typ: st, Fields: []constant.Constant{f, sum}}}
+	g.SetName("g")
+	h := &ir.Global{ContentType: types.NewPointer(st), Init: g}
+	h.SetName("h")
+	m.Globals = append(m.Globals, g, h)
+	a := &ir.Alias{Aliasee: g}
+	a.SetName("a")
+	m.Aliases = append(m.Aliases, a)
+	return m
 }
 
 // c13Build constructs a module through the API with unnamed everything.
@@ -214,7 +243,7 @@ func c13Rounds(r *fw.Rec, sc, id, input string, mk func() *ir.Module, rounds int
 		switch sc {
 		case "printed":
 			preprinted = true
-		case "fresh":
+		case "fresh", "literal":
 			preprinted = false
 		}
 		cold := !haveExp // first printing activity of this process: as many simultaneous whole-module printers as possible
@@ -273,7 +302,7 @@ func c13Rounds(r *fw.Rec, sc, id, input string, mk func() *ir.Module, rounds int
 					}
 					p, msg, _ := fw.Guard(func() {
 						choice := grng.Intn(10)
-						if sc == "whole" {
+						if sc == "whole" || sc == "literal" {
 							choice = choice % 5
 						}
 						switch {
